@@ -462,7 +462,7 @@ def replay(path):
 
 def main(tier, seed):
     t0 = time.time()
-    opts = {'examples': common.budget(tier, 70, 2500),
+    opts = {'examples': common.budget(tier, 140, 2500),
             'time_budget': common.budget(tier, 80, 1500),
             'shrink_budget': common.budget(tier, 40, 200)}
     results = runner.run_shards('mv.props.c08', 'shard_main', 16, seed, tier,
